@@ -85,6 +85,32 @@ int main()
       if (!configured) { o << "err noconfig\n"; continue; }
       for (int i = 0; i < S.eng.natoms; i++) S.eng.pos[i] = v3();
       evaluate();
+    } else if (cmd == "M" || cmd == "F") {
+      // M | <conf of component 0> ~ <conf of component 1> ~ ...   = cv colvar c modifycvcs (colvar::update_cvc_config)
+      // F <b0> <b1> ...                                            = cv colvar c cvcflags   (colvar::set_cvc_flags)
+      if (!configured) { o << "err noconfig\n"; continue; }
+      colvar *cv = (*(S.proxy->colvars->variables()))[0];
+      cvm::clear_error();
+      int err = COLVARS_OK;
+      if (cmd == "M") {
+        std::vector<std::string> confs; std::string cur;
+        std::replace(conf.begin(), conf.end(), ';', '\n');
+        for (size_t k = 0; k <= conf.size(); k++) {
+          if (k == conf.size() || conf[k] == '~') {
+            size_t b = cur.find_first_not_of(" \n"); size_t e = cur.find_last_not_of(" \n");
+            confs.push_back(b == std::string::npos ? std::string("") : cur.substr(b, e - b + 1));
+            cur.clear();
+          } else cur += conf[k];
+        }
+        err = cv->update_cvc_config(confs);
+      } else {
+        std::vector<bool> flags;
+        while (p < a.size()) flags.push_back(ni() != 0);
+        err = cv->set_cvc_flags(flags);
+      }
+      err |= cvm::get_error();
+      o << (err == COLVARS_OK ? "ok" : "err") << "\n";
+      cvm::clear_error();
     } else if (cmd == "R") {
       // R <N>: a new run of the same session starts at absolute step N (the engine calls set_initial_step(N));
       // the next P line is the first step of that run
